@@ -68,7 +68,12 @@ func genC19(t *rapid.T) *C19Case {
 		case 7:
 			c.Steps = append(c.Steps, rig.Step{Op: "in", In: g.app()})
 		case 8:
-			c.Steps = append(c.Steps, rig.Step{Op: "in", In: g.goodLogon(g.hb)})
+			if rapid.Bool().Draw(t, "resendOrLogon") {
+				b := rapid.IntRange(1, 4).Draw(t, "rb")
+				c.Steps = append(c.Steps, rig.Step{Op: "in", In: g.resend(b, b+rapid.IntRange(0, 2).Draw(t, "rspan"))})
+			} else {
+				c.Steps = append(c.Steps, rig.Step{Op: "in", In: g.goodLogon(g.hb)})
+			}
 		default:
 			c.Steps = append(c.Steps, rig.Step{Op: "in", In: g.heartbeat("")})
 		}
@@ -161,9 +166,43 @@ func checkC19(c *C19Case, rec *evid.Rec) (vs []pbt.Violation) {
 	var sendReturns []rig.Event
 	var sendCalls []int
 	firstWire := map[int]bool{}
+	// while a ResendRequest is being served, events under numbers allocated
+	// before it belong to retransmissions (possibly of messages that never made
+	// it to the wire), not to the original attempts
+	inResend, maxSeq, resendFloor := false, 0, 0
 	for _, e := range evs {
 		switch e.Kind {
+		case "inject":
+			t, _ := ref.Lookup(e.Bytes, rig.TagMsgType)
+			inResend = t == rig.TResendRequest
+			resendFloor = maxSeq
+		case "send-call":
+			inResend = false
+		}
+		if e.Kind == "store:save" || e.Kind == "handler:out" {
+			if e.Seq > maxSeq {
+				maxSeq = e.Seq
+			}
+			if inResend && e.Seq <= resendFloor {
+				if e.Kind == "store:save" {
+					if own, ok := ref.Lookup(e.Bytes, rig.TagMsgSeqNum); ok && own != fmt.Sprint(e.Seq) && len(vs) == 0 {
+						vs = append(vs, pbt.V("saved-under-wrong-number", "a retransmitted message carrying MsgSeqNum %s was saved under number %d: %s", own, e.Seq, ref.Show(e.Bytes)))
+					}
+				}
+				continue
+			}
+		}
+		if e.Kind == "wire" && inResend {
+			if n := atoi(rig.Decode(e.Bytes).Seq); n <= resendFloor {
+				continue
+			}
+		}
+		switch e.Kind {
 		case "store:save":
+			// saved under its own sequence number (also when a retransmission is re-saved)
+			if own, ok := ref.Lookup(e.Bytes, rig.TagMsgSeqNum); ok && own != fmt.Sprint(e.Seq) && len(vs) == 0 {
+				vs = append(vs, pbt.V("saved-under-wrong-number", "a message carrying MsgSeqNum %s was saved under number %d: %s", own, e.Seq, ref.Show(e.Bytes)))
+			}
 			a := get(e.Seq)
 			if firstWire[e.Seq] {
 				continue // re-save during a retransmission
